@@ -430,6 +430,7 @@ func c01(r *vlib.Run) int {
 		c.Classes = []string{"consumer-stalls-at-the-tail", "numbered"}
 		c.StallS = 7.5
 	}
+	c01Queued(r)
 	dir := r.Dir("c01files")
 	vlib.Parallel(n, 12, func(i int) {
 		c := cases[i]
@@ -439,6 +440,89 @@ func c01(r *vlib.Run) int {
 		c01Run(r, i, c, path, fleets[c.M], cfgs[c.M])
 	})
 	return n / 2
+}
+
+// c01Queued: reads that have to wait for a read slot. A server with MaxConcurrentCats=1 (at its default log level)
+// gets eight plain dcat sessions at the same time, each on its own file, and sessions that name several files by one
+// wildcard: all but one read queue behind the limit. What a session prints must still be exactly its file (for a
+// wildcard: its files, each contiguous, in some order) - waiting for a slot is not content.
+func c01Queued(r *vlib.Run) {
+	fl, err := startFleet(r, "c01q", 1, map[string]interface{}{"MaxConcurrentCats": 1, "MaxConnections": 64}, nil, "info")
+	if err != nil {
+		r.Inconclusive("fleet-start")
+		return
+	}
+	defer fl.Stop()
+	rng := r.Rng("queued")
+	dir := r.Dir("c01queued")
+	rounds := r.N(3, 20)
+	for round := 0; round < rounds; round++ {
+		const k = 8
+		contents := make([][]byte, k)
+		paths := make([]string, k)
+		gdir := filepath.Join(dir, fmt.Sprintf("g%d", round))
+		os.MkdirAll(gdir, 0755)
+		for j := range contents {
+			c, _ := c01GenContent(rng, 1024*1024, r.N(300*1024, 1024*1024), false)
+			c = append(bytes.TrimRight(c, "\n"), '\n')
+			contents[j] = c
+			paths[j] = filepath.Join(gdir, fmt.Sprintf("q%d.log", j))
+			os.WriteFile(paths[j], c, 0644)
+		}
+		outs := make([]*vlib.Result, k+1)
+		vlib.Parallel(k+1, k+1, func(j int) {
+			if j == k {
+				outs[j] = runFleet(r, fl, "dcat", []string{"--plain", "--files", filepath.Join(gdir, "q[0-3].log")}, nil)
+				return
+			}
+			outs[j] = runFleet(r, fl, "dcat", []string{"--plain", "--files", paths[j]}, nil)
+		})
+		for j, res := range outs {
+			r.Eval(fmt.Sprintf("queued|%d|%d", round, j))
+			r.Count("sessions_reading_behind_a_cat_limit_of_1", 1)
+			if res.TimedOut {
+				r.Inconclusive("dcat-watchdog")
+				continue
+			}
+			ok := false
+			if j < k {
+				ok = bytes.Equal(res.Stdout, joinMsgs(splitM(contents[j], 1024*1024)))
+			} else {
+				// four files, each contiguous, in any order
+				rest := res.Stdout
+				used := map[int]bool{}
+				for len(used) < 4 {
+					hit := -1
+					for q := 0; q < 4; q++ {
+						if !used[q] && bytes.HasPrefix(rest, contents[q]) {
+							hit = q
+							break
+						}
+					}
+					if hit < 0 {
+						break
+					}
+					used[hit] = true
+					rest = rest[len(contents[hit]):]
+				}
+				ok = len(used) == 4 && len(rest) == 0
+			}
+			if res.Hung || res.Panicked() || res.Exit != 0 || !ok {
+				d := map[string]interface{}{"scenario": "eight sessions at once on a server with MaxConcurrentCats=1", "session": j, "wildcard": j == k,
+					"exit": res.Exit, "hung": res.Hung, "stdout_len": len(res.Stdout), "stdout_prefix": vlib.Trunc(string(res.Stdout), 400), "stderr": vlib.Trunc(string(res.Stderr), 600)}
+				if j < k {
+					want := joinMsgs(splitM(contents[j], 1024*1024))
+					d["want_len"], d["first_diff_at"] = len(want), firstDiff(res.Stdout, want)
+					d["got_around"], d["want_around"] = around(res.Stdout, firstDiff(res.Stdout, want)), around(want, firstDiff(res.Stdout, want))
+				}
+				r.Violation("content-mismatch-when-the-read-had-to-queue", d)
+			}
+		}
+		os.RemoveAll(gdir)
+	}
+	if !fl.AllAlive() {
+		r.Violation("server-died", map[string]interface{}{"scenario": "queued reads"})
+	}
 }
 
 func c01Run(r *vlib.Run, i int, c *c01Case, path string, fl *fleet, cfg string) {
